@@ -1,18 +1,10 @@
 //! C01 Sequential reads equal a flat reference disk
-use super::common::*;
+use super::seqdom::*;
 use crate::engine::{Rule, SeqCfg};
-use crate::gen::{raw_strategy, Profile, RawCase};
+use crate::gen::Profile;
 use crate::runner::*;
-use proptest::strategy::{BoxedStrategy, Strategy};
-use serde_json::Value;
 
 pub struct C01;
-
-struct Seq;
-
-fn profile() -> Profile {
-    Profile::default()
-}
 
 pub fn cfg() -> SeqCfg {
     SeqCfg {
@@ -27,39 +19,6 @@ pub fn cfg() -> SeqCfg {
     }
 }
 
-impl Domain for Seq {
-    fn name(&self) -> &'static str {
-        "seq"
-    }
-    fn cases(&self, tier: Tier) -> u64 {
-        match tier {
-            Tier::Quick => 6_000,
-            Tier::Thorough => 300_000,
-        }
-    }
-    fn strategy(&self, _tier: Tier) -> BoxedStrategy<RawCase> {
-        raw_strategy(24, profile().max_ops, 200, 0).boxed()
-    }
-    fn decode(&self, raw: &RawCase, _excl: &Exclusions) -> Value {
-        decode_seq_value(raw, &profile())
-    }
-    fn run(&self, case: &Value, _excl: &Exclusions) -> CaseResult {
-        let case = match case_from_value(case) {
-            Ok(c) => c,
-            Err(r) => return r,
-        };
-        let (run, verdict) = run_owned(&case, &cfg(), &|v| {
-            matches!(v.rule, Rule::ReadLen | Rule::ReadData | Rule::Frame | Rule::MappingKind)
-        });
-        let st = &run.stats;
-        CaseResult {
-            verdict,
-            nontrivial: st.ops_done >= 3 && (st.reads_of_modified > 0 || st.reads_of_initial_nonzero > 0),
-            classes: seq_classes(st, &case),
-        }
-    }
-}
-
 impl Prop for C01 {
     fn id(&self) -> &'static str {
         "C01"
@@ -68,22 +27,35 @@ impl Prop for C01 {
         "exploration"
     }
     fn rule_text(&self) -> String {
-        "Generated: (image chain: formatted or independently built with data/zero/compressed clusters and backing layers; \
-         device parameters over the legal domain; sequential history of write/read/discard/flush/fsync/shrink/reopen; \
-         optional intra-call completion schedule). Oracle: flat reference disk; every read and a full sweep after every \
-         modifying op must equal it, get_mapping must agree with the model kind. Non-trivial: >= 3 operations executed and \
+        "Generated: (image chain: formatted by the library or independently built with data/zero/compressed clusters, \
+         arbitrary placement and backing layers; device parameters over the legal domain; sequential history of \
+         write/read/discard/flush/fsync/shrink/reopen; optional schedule for the completion order of the requests a call \
+         has in flight). Oracle: flat reference disk; every read and a full sweep after every modifying op must equal it \
+         (reads into poisoned buffers), get_mapping must agree with the model kind. Non-trivial: >= 3 operations executed and \
          at least one explicit read intersecting a cluster that was written/discarded earlier or whose initial content is \
          non-zero. Distinct = distinct decoded case (hash of the case JSON)."
             .into()
     }
     fn assumptions(&self) -> Vec<String> {
         vec![
-            "SimFile implements the host-file semantics the library relies on (tied to real backends by C19)".into(),
-            "the independent image builder produces spec-valid images (validated by its own checker/reader round trip)".into(),
-            "virtual size is a multiple of every block size used in the case".into(),
+            "SimFile implements the host-file semantics the library relies on (tied to the real backends by C19)".into(),
+            "the independent image builder produces spec-valid images (validated against its own checker/reader)".into(),
+            "virtual size is a multiple of every block size used in the case; block size and custom slice sizes do not exceed the smallest cluster size of the chain".into(),
         ]
     }
     fn domains(&self) -> Vec<Box<dyn Domain>> {
-        vec![Box::new(Seq)]
+        vec![Box::new(SeqDomain {
+            name: "seq",
+            quick: 6_000,
+            thorough: 300_000,
+            profile: Profile::default,
+            cfg,
+            owns: |v| matches!(v.rule, Rule::ReadLen | Rule::ReadData | Rule::Frame | Rule::MappingKind),
+            nontrivial: |r, _| r.stats.ops_done >= 3 && (r.stats.reads_of_modified > 0 || r.stats.reads_of_initial_nonzero > 0),
+            tweak: no_tweak,
+            extra_classes: no_classes,
+            max_sched: 200,
+            max_extra: 0,
+        })]
     }
 }
